@@ -284,9 +284,10 @@ prop("C06", [
 prop("C07", [
     {"name": "c07_stall", "sources": ["c06_writes.cc"], "flavour": "asan",
      "args": {"quick": ["--mode=c07", "--timeout-ms=60000", "--deadline-s=170"],
-              "thorough": ["--mode=c07", "--timeout-ms=60000", "--deadline-s=600"]}},
+              "thorough": ["--mode=c07", "--thorough=1", "--timeout-ms=60000", "--deadline-s=900"]}},
     {"name": "c07_blockplans", "sources": ["c06_writes.cc"], "flavour": "asan",
-     "args": {"quick": ["--mode=c06", "--D=1", "--busywait=1", "--last=120", "--timeout-ms=120000", "--deadline-s=170"]}},
+     "args": {"quick": ["--mode=c06", "--D=1", "--busywait=1", "--last=120", "--timeout-ms=120000", "--deadline-s=170"],
+              "thorough": ["--mode=c06", "--D=2", "--busywait=1", "--timeout-ms=600000", "--deadline-s=1200"]}},
 ],
     rule="one case = (pending writes 1..3 on connection A, A's socket answers would-block at write call i in 0..4, "
          "released after d in 1..4 event-loop steps, a request on connection B of the same worker arriving at step j "
@@ -297,7 +298,8 @@ prop("C07", [
          "release all of A's bytes arrive in order and A's promises are fulfilled once; second part re-runs the C06 "
          "single-deviation plans for the busy-wait verdict; non-trivial = every combination (all stall A)",
     assumptions=COMMON_ASSUME + ["'bounded time' is measured in event-loop steps, not wall time"],
-    bounds={"quick": "full grid 3x5x4x7x2x2x2", "thorough": "same grid (complete)"})
+    bounds={"quick": "grid 3x5x4x7x2x2x2 plus the file-body, vanished-connection and second-stall variants; C06 plans with <=1 deviation for the first 120 write lists",
+            "thorough": "grid 4x7x6x10x2x2x2 plus the variants; all C06 plans with <=2 deviations"})
 
 prop("C08", [
     {"name": "c08_lifecycle", "sources": ["c08_lifecycle.cc"], "c_sources": ["common/netgate.c"], "flavour": "asan",
